@@ -8,9 +8,14 @@ subclasses of the built-in containers -, plain synchronous calls) are interprete
   call    fn(args)                               value   fn.asynq(args).value()
   aio     `await fn.asyncio(args)` inside an observer coroutine (same contextvars context) under asyncio.run
   aiorun  asyncio.run(fn.asyncio(args))          aiotask ensure_future(fn.asyncio(args)) beside a flag-watching coroutine
-through plain functions, methods (bound and through the class), pure functions, async_proxy functions, asynq.async_call and
-non-generator functions, with positional and keyword arguments, with and without an explicit asyncio_fn; with fresh
-decorated functions for every run or one set shared by the five runs in a random order; first or second use.
+through plain functions, methods (bound and through the class), classmethods and staticmethods (through the class and through
+an instance), pure functions, async_proxy functions, asynq.async_call, @deduplicate() functions and non-generator functions,
+with positional and keyword arguments, with and without an explicit asyncio_fn, declared with or without sync_fn= (the callee
+of a plain synchronous call then is that sync_fn - which must not run while the flag is on); with fresh decorated functions
+for every run or one set shared by the five runs in a random order; first or second use; and under five INTERACTIONS that the
+model does not distinguish (usage flags): one constant object yielded again and again (`reuse`), one decorator object applied
+to many functions (`onedeco`), every run on a fresh thread (`thread`), bound wrappers used through copy.copy() (`copyb`),
+garbage collections between runs and at every resumption (`gc`).
 The Lean model (AsynqModel.Lib.Asyncio) runs the same program (correspondence, per-task projection of the logs) and the
 Lean observer `Asyncio.spec` judges the implementation's observations on their own: flag off before / after / on inside,
 siblings complete, synchronous calls refused, same outcome as fn(args) and the same start / deliveries at every yield / end
@@ -18,8 +23,9 @@ of EVERY task as under fn(args) (when the asyncio run attempted no synchronous c
 task carrying the outcome.  `spec` reads of a log only what the correspondence check compares (per-task sub-logs, first
 event; never the order of events of different tasks): CORR=ok implies SPEC = SPECM (C15_spec_respects_correspondence).  `spec` is proved of the model for every program that satisfies `Prog.safe` (no handler
 catches BaseException, or no BaseException-only error is raised) and `Prog.plainY` (no container-subclass yield, no
-async_proxy function returning a non-future): C15_spec_holds_partial; for the rest the code as it is violates the
-property: C15_base_handler_counterexample, C15_container_subclass_counterexample, C15_proxy_value_counterexample."""
+async_proxy function returning a non-future) and `Prog.noDedupSync` (no plain synchronous call of a @deduplicate() function):
+C15_spec_holds_partial; for the rest the code as it is violates the property: C15_base_handler_counterexample,
+C15_container_subclass_counterexample, C15_proxy_value_counterexample, C15_dedup_sync_counterexample."""
 import hashlib
 import json
 import random
@@ -45,6 +51,8 @@ HEADLINE_THEOREMS = [
     "AsynqModel.Asyncio.C15_failure_is_an_element",
     "AsynqModel.Asyncio.C15_spec_holds_partial",
     "AsynqModel.Asyncio.C15_spec_respects_correspondence",
+    "AsynqModel.Asyncio.C15_sync_fn_never_runs_under_asyncio",
+    "AsynqModel.Asyncio.C15_sync_refused_with_RuntimeError_partial",
 ]
 # where the code as it is violates the property, and the necessity of every hypothesis (machine-checked witnesses)
 COUNTEREXAMPLE_THEOREMS = [
@@ -53,6 +61,7 @@ COUNTEREXAMPLE_THEOREMS = [
     "AsynqModel.Asyncio.C15_base_handler_counterexample",
     "AsynqModel.Asyncio.C15_container_subclass_counterexample",
     "AsynqModel.Asyncio.C15_proxy_value_counterexample",
+    "AsynqModel.Asyncio.C15_dedup_sync_refused",
     "AsynqModel.Asyncio.C15_noSync_necessary",
     "AsynqModel.Asyncio.C15_flag_off_necessary",
 ]
@@ -64,6 +73,8 @@ BY_CONSTRUCTION_THEOREMS = [
     "AsynqModel.Asyncio.C15_sync_refused_top",
     "AsynqModel.Asyncio.C15_result_is_return",
     "AsynqModel.Asyncio.C15_gather_first_failure",
+    "AsynqModel.Asyncio.C15_sync_allowed_by_asynq",
+    "AsynqModel.Asyncio.C15_sync_fn_unused_by_asynq_and_asyncio",
 ]
 THEOREMS = HEADLINE_THEOREMS + COUNTEREXAMPLE_THEOREMS + BY_CONSTRUCTION_THEOREMS
 BUILDS = {"quick": ["py"], "thorough": ["py", "cy"]}
@@ -72,17 +83,26 @@ RULE = ("corpus (18 minimised programs), a fixed family (every call kind x expli
         "slower success beside it; empty structures; synchronous calls of every kind; BaseException-only errors raised by every "
         "kind of child, first / second in structure order beside an ordinary failure, passing through an intermediate task; "
         "instances of subclasses of tuple / list / dict yielded bare, nested, empty, beside failing tasks; async_proxy functions "
-        "returning None / list / tuple / dict, bare and inside a list), a "
+        "returning None / list / tuple / dict, bare and inside a list; every DECLARATION of a function - function / method / "
+        "classmethod / staticmethod / non-generator / @deduplicate(), with or without sync_fn=, with or without asyncio_fn=, "
+        "reached through the instance or the class, positional or keyword arguments - as the callee of a plain synchronous call "
+        "(at the root and inside a gathered child), as a child under a bare and a gathered yield and as the root; one constant "
+        "object - 7 shapes - yielded twice by a body, by a child, inside other structures, by every one of the five runs sharing "
+        "it, by the second use), a "
         "value family (13 unusual kinds of returned object x 7 places a value travels through x call kinds), SIZE families with "
         "the size as a parameter (wide: one yield of 5..513 (thorough ..2049) entries with failures at chosen positions, list / "
         "tuple / dict, nested or not; deep: containers nested 4..100 (..200) levels; long: one generator resumed 5..1001 (..2500) "
-        "times; chain: 6..100 (..200) tasks each awaiting the next) and grammar-generated batch-free programs: 1-15 tasks, depth "
+        "times; chain: 6..100 (..200) tasks each awaiting the next; table: ONE constant list / tuple / dict of 5..513 (..1025) "
+        "ConstFutures and Nones yielded 2-4 times by the root and a child and by all five runs) and grammar-generated batch-free programs: 1-15 tasks, depth "
         "<= 5, yields of None / non-future / ConstFuture / proxy ConstFuture / child task / nested tuple-list-dict (0-4, "
         "sometimes 5-40 elements, 3 levels), in 1 program of 8 also container-subclass instances or proxy functions returning "
-        "None / a container, raise / raiseB / re-raise / return / result() of plain or unusual objects, handler "
+        "None / a container, in 1 of 2 call sites declared with sync_fn= / as classmethod / staticmethod (callees of "
+        "synchronous calls more often) and @deduplicate() children, in 2 of 5 yields of constants only that are repeated by the "
+        "next yield, raise / raiseB / re-raise / return / result() of plain or unusual objects, handler "
         "(except Exception or except BaseException) or no handler at every yield, plain synchronous calls (the malformed stream: "
         "non-futures and synchronous calls under asyncio); each program is run in five ways (call, value, aio, aiorun, aiotask) "
-        "with fresh or shared decorated functions, first or second use. non-trivial = at least 2 tasks and (a failure delivered "
+        "with fresh or shared decorated functions, first or second use, and the usage flags reuse (1/2) / onedeco (3/10) / "
+        "thread (12%) / copyb (15%) / gc (6%). non-trivial = at least 2 tasks and (a failure delivered "
         "at a yield or a nested structure); distinct by case hash")
 TRUSTED = [
     "hand-written Lean model AsynqModel.Lib.Asyncio tied to the code by this differential run only; its reference evaluator "
@@ -92,7 +112,8 @@ TRUSTED = [
     "per-task projection of the event logs; for programs that raise BaseException-only errors the coroutine of a task is "
     "awaited through a harness wrapper that logs the end of a task whose abandoned generator cannot; tasks inside a "
     "container-subclass instance or inside what an async_proxy function returned count for 'all yielded together have "
-    "completed' only if the engine started them)",
+    "completed' only if the engine started them; the usage flags reuse / onedeco / thread / copyb / gc change how the "
+    "harness uses the public API, never what the model is given)",
     "asyncio event loop, contextvars (ensure_future copies the context), CPython generator/with semantics",
 ]
 ASSUMPTIONS = [
@@ -109,12 +130,20 @@ ASSUMPTIONS = [
     "asyncio.CancelledError, which the event loop itself interprets, are not raised; they do occur as returned VALUES)",
     "an explicit asyncio_fn is a faithful asyncio version of the function (here: it logs and awaits the undecorated "
     "function's .asyncio())",
-    "asynq.result(x) of a future-like x asserts on both engines alike and is not generated; allow_sync_call=True, "
-    "classmethod / staticmethod and sync_fn= pairs are not generated",
+    "hypothesis of the statements about HOW a synchronous call is refused: Prog.noDedupSync (no plain synchronous call of a "
+    "@deduplicate() function; machine-checked counterexample C15_dedup_sync_counterexample; generated and reported)",
+    "asynq.result(x) of a future-like x asserts on both engines alike and is not generated; allow_sync_call=True (the "
+    "documented opt-out of the refusal) is not generated",
+    "the ROOT function of a case is declared without sync_fn (with one, fn(args) IS sync_fn(args) by definition - comparing "
+    "fn.asyncio(args) with it is not what the property states); every other call site may be; a sync_fn= is a faithful "
+    "synchronous version of the function (here: it logs and makes the plain synchronous call of the function declared "
+    "without sync_fn)",
+    "@async_proxy(sync_fn=f) is not an @asynq() function: AsyncAndSyncPairProxyDecorator.__call__ runs f whatever the flag "
+    "(not generated; noted in DESIGN.md 5 C15)",
 ]
 CASE_TIMEOUT = 30
 CONVS = ["call", "value", "aio", "aiorun", "aiotask"]
-KINDS = ["gen", "meth", "pure", "proxy", "plain"]
+KINDS = ["gen", "meth", "pure", "proxy", "plain", "dedup"]     # dedup: @deduplicate() over @asynq() (asynq/tools.py)
 AFN_KINDS = ("gen", "meth", "proxy", "plain")
 
 
@@ -127,8 +156,50 @@ AFN_KINDS = ("gen", "meth", "proxy", "plain")
 #           | ["dict", [key, ys]...]
 #           | ["tupS", ys...] | ["lstS", ys...] | ["dictS", [key, ys]...]   the same containers as instances of a SUBCLASS
 #           | ["pval", ys]   proxy.asynq() of an @async_proxy() function that returns the object ys (None or a container)
-#   call := [kind, afn(0/1), label]
+#   call := [kind, afn(0/1), label] | [kind, afn(0/1), label, var]
+#           var = sfn + 2 * bind: HOW the function of the call site is declared
+#             sfn  = 1: with `sync_fn=f` (kinds gen / meth / plain; never the root call): f logs `sfn` and makes the plain
+#                       synchronous call of the function declared without sync_fn            (Lean: Call.sfn, Ev.sfn)
+#             bind = 1: kind meth as a classmethod, 2: as a staticmethod (access paths that the model does not distinguish)
 # ---------------------------------------------------------------------------------------------------
+SFN_KINDS = ("gen", "meth", "plain")
+BIND_NAMES = ("", "classmethod", "staticmethod")
+
+
+def call_var(c):
+    return c[3] if len(c) > 3 else 0
+
+
+def mk_call(kind, afn, label, var=0):
+    return [kind, afn, label, var] if var else [kind, afn, label]
+
+
+def valid_call(c):
+    kind, afn = c[0], c[1]
+    sfn, bind = call_var(c) % 2, call_var(c) // 2
+    if bind > 2 or (sfn and kind not in SFN_KINDS) or (bind and kind != "meth"):
+        return False
+    return not (afn and kind not in AFN_KINDS)
+
+
+def variants(kinds=("gen", "meth", "plain", "dedup")):
+    """every declaration of a function of these kinds: (kind, afn, var)"""
+    res = []
+    for kind in kinds:
+        for bind in ((0, 1, 2) if kind == "meth" else (0,)):
+            for afn in (0, 1):
+                for sfn in (0, 1):
+                    if valid_call([kind, afn, 0, sfn + 2 * bind]):
+                        res.append((kind, afn, sfn + 2 * bind))
+    return res
+
+
+def const_only(y):
+    """a structure of None / non-futures / ConstFutures and containers of those: nothing in it is consumed by being awaited, so
+    the same OBJECT may be yielded any number of times"""
+    return all((x in ("none", "junk")) if not isinstance(x, list) else (x[0] == "const" or x[0] in CONTAINER_TAGS)
+               for x in walk_ys(y))
+
 
 YLD = ("yld", "yldB")
 SEQ_TAGS = ("tup", "lst", "tupS", "lstS")
@@ -191,6 +262,10 @@ def has_sync(p):
     return any(q[0] == "sync" for q in walk_progs(p))
 
 
+def has_dedup_sync(p):
+    return any(q[0] == "sync" and q[1][0] == "dedup" for q in walk_progs(p))
+
+
 def has_base_handler_and_raise(p):
     ops = {q[0] for q in walk_progs(p)}
     return "yldB" in ops and "raiseB" in ops
@@ -227,6 +302,9 @@ class Gen(object):
         self.p_bh = 0.0           # probability that a handler is `except BaseException`
         self.p_sub = 0.0          # probability that a yielded container is an instance of a subclass
         self.p_pval = 0.0         # probability that a leaf is an async_proxy call returning None / a container
+        self.p_var = 0.0          # probability that a call site uses an unusual declaration (sync_fn= pair, classmethod, ...)
+        self.p_again = 0.0        # probability that a yield is of constants only and is repeated by the next yield
+        self.dsync = False        # may the callee of a plain synchronous call be a @deduplicate() function (a known divergence)
 
     def tag(self):
         rng = self.rng
@@ -244,11 +322,17 @@ class Gen(object):
         if not has_yield(body) and rng.random() < 0.45:
             kind = "plain"
         else:
-            kind = rng.choices(["gen", "meth", "pure", "proxy"], weights=[40, 20, 0 if sync else 12, 22])[0]
+            kind = rng.choices(["gen", "meth", "pure", "proxy", "dedup"],
+                               weights=[40, 20, 0 if sync else 12, 22, (8 if self.dsync else 0) if sync else 5])[0]
             if not has_yield(body) and kind != "plain" and rng.random() < 0.3:
                 kind = "plain"
         afn = 1 if (kind in AFN_KINDS and rng.random() < 0.3) else 0
-        return [kind, afn, self.label()]
+        var = 0
+        if self.p_var and rng.random() < (max(self.p_var, 0.6) if sync else self.p_var):
+            bind = rng.choice([0, 1, 2]) if kind == "meth" else 0
+            sfn = 1 if (kind in SFN_KINDS and rng.random() < 0.6) else 0
+            var = sfn + 2 * bind
+        return mk_call(kind, afn, self.label(), var)
 
     def terminal(self, in_handler, p_res):
         rng = self.rng
@@ -279,9 +363,18 @@ class Gen(object):
             k = self.prog(depth, steps - 1, in_handler, p_res, p_sync)
             h = self.handler(depth, steps - 1, p_res, p_sync)
             return ["sync", c, child, k, h]
-        y = self.ys(depth, 0, p_res, p_sync)
+        again = bool(self.p_again) and rng.random() < self.p_again
+        if again:
+            # constants only (no task budget), to be yielded twice
+            saved, self.budget = self.budget, 0
+            y = self.ys(depth, 0, p_res, p_sync)
+            self.budget = saved
+        else:
+            y = self.ys(depth, 0, p_res, p_sync)
         k = self.prog(depth, steps - 1, in_handler, p_res, p_sync)
         h = self.handler(depth, steps - 1, p_res, p_sync)
+        if again and const_only(y):
+            k = ["yld", y, k, ["reraise"] if rng.random() < 0.5 else h]
         return ["yldB" if (self.p_bh and h != ["reraise"] and rng.random() < self.p_bh) else "yld", y, k, h]
 
     def handler(self, depth, steps, p_res, p_sync):
@@ -336,6 +429,9 @@ class Gen(object):
 # generate programs in which a handler that catches BaseException meets a BaseException-only error of an awaited child:
 # fn(args) runs the handler, fn.asyncio(args) never delivers the error to the body (theorem C15_base_handler_counterexample)
 GEN_BASE_DEFECT = True
+# generate plain synchronous calls of @deduplicate() functions: under asyncio they are refused with a TypeError raised while
+# the RuntimeError's message is built (theorem C15_dedup_sync_counterexample)
+GEN_DEDUP_SYNC = True
 
 
 def gen_case(rng, budget=None):
@@ -354,14 +450,22 @@ def gen_case(rng, budget=None):
             g.p_pval = rng.choice([0.15, 0.4])
     p_res = rng.choice([0.0, 0.0, 0.0, 0.05, 0.15])
     p_sync = rng.choice([0.0, 0.0, 0.05, 0.15])
+    g.dsync = GEN_DEDUP_SYNC and odd is None and not (g.p_base and g.p_bh) and rng.random() < 0.5
+    # declarations (sync_fn= pairs, classmethod / staticmethod, @deduplicate()) and repeated yields of one constant object
+    g.p_var = rng.choice([0.0, 0.0, 0.15, 0.5])
+    g.p_again = rng.choice([0.0, 0.0, 0.0, 0.1, 0.3])
     body = g.prog(0, rng.randint(1, 4), False, p_res, p_sync)
     rng2 = random.Random(rng.random())
     if has_yield(body):
-        kind = rng2.choice(["gen", "gen", "meth", "pure", "proxy"])
+        kind = rng2.choice(["gen", "gen", "gen", "meth", "meth", "pure", "pure", "proxy", "proxy", "dedup"])
     else:
         kind = rng2.choice(["plain", "plain", "gen", "meth", "proxy"])
     afn = 1 if (kind in AFN_KINDS and rng2.random() < 0.3) else 0
-    return usage({"top": [[kind, afn, 0], body]}, rng2)
+    var = 0
+    if g.p_var and rng2.random() < g.p_var:
+        # the root is never declared with sync_fn (fn(args) would BE sync_fn(args))
+        var = 2 * rng2.choice([1, 2]) if kind == "meth" else 0
+    return usage({"top": [mk_call(kind, afn, 0, var), body]}, rng2)
 
 
 def delay(g, n, term):
@@ -427,6 +531,38 @@ def family():
         cases.append({"top": [["gen", 0, 0], ["yld", ["task", ["gen", 0, 2], ["sync", [kind, 0, 1], ["raise", 4], ["ret", 1], ["reraise"]]],
                                               ["ret", 1], ["ret", 2]]]})
     cases.append({"top": [["plain", 0, 0], ["sync", ["gen", 0, 1], ["ret", 4], ["ret", 1], ["ret", 2]]]})
+    # every DECLARATION of a function (function / method / classmethod / staticmethod, with or without sync_fn=, with or
+    # without asyncio_fn=, under @deduplicate()), reached through the instance or through the class (label % 4), with positional
+    # or keyword arguments (label % 2): as the callee of a plain synchronous call - refused while the flag is on, and nothing of
+    # the callee, its sync_fn included, runs; .asynq() of the same declaration keeps working afterwards -, as a child under a
+    # bare and a gathered yield, and (without sync_fn) as the root
+    for kind, afn, var in variants():
+        for access in ((0, 2) if kind == "meth" else (0,)):
+            c1 = mk_call(kind, afn, 4 + access, var)
+            c2 = mk_call(kind, afn, 9 + access, var)
+            yb = ["ret", 5] if kind == "plain" else ["yld", "none", ["ret", 5], ["reraise"]]
+            cases.append({"top": [["gen", 0, 0], ["sync", c1, ["ret", 4], ["yld", ["task", c2, ["ret", 5]], ["ret", 1], ["reraise"]],
+                                                  ["yld", ["task", c2, yb], ["ret", 2], ["reraise"]]]]})
+            cases.append({"top": [["gen", 0, 0], ["yld", ["lst", ["task", ["meth", 0, 1], ["sync", c1, ["raise", 4], ["ret", 1], ["reraise"]]],
+                                                          ["const", 3]], ["ret", 1], ["ret", 2]]]})
+            cases.append({"top": [["gen", 0, 0], ["yld", ["task", c1, ["raise", 2]], ["ret", 1], ["ret", 2]]]})
+            cases.append({"top": [["meth", 0, 0], ["yld", ["tup", ["task", c1, yb], ["task", c2, ["res", 6]]], ["ret", 1], ["ret", 2]]]})
+            if var % 2 == 0:
+                cases.append({"top": [mk_call(kind, afn, access, var),
+                                      ["ret", 3] if kind == "plain" else ["yld", ["lst", ["task", c1, ["ret", 5]]], ["ret", 1], ["ret", 2]]]})
+    # the same constant OBJECT (a table of ConstFutures / None) yielded twice by one body, by a child as well, and - one set of
+    # functions and objects shared by the five runs - by every run: neither engine may touch what was yielded
+    t7 = ["task", ["gen", 0, 1], ["ret", 7]]
+    for y in (["dict", [1, ["const", 10]], [2, "none"]], ["lst", ["const", 1], ["tup", ["const", 2], "none"]], ["tup", ["const", 3]],
+              ["dict", [5, ["lst", ["const", 7]]], [6, ["dict", [1, ["const", 8]]]]], ["const", 9], ["lst"], ["dict", [3, "junk"]]):
+        twice = ["yld", y, ["yld", y, ["ret", 1], ["ret", 2]], ["ret", 3]]
+        cases.append({"top": [["gen", 0, 0], twice], "reuse": 1})
+        cases.append({"top": [["meth", 1, 0], ["yld", ["tup", t7, y], ["yld", y, ["yld", ["lst", y, y], ["ret", 1], ["ret", 2]], ["ret", 3]], ["ret", 4]]],
+                      "reuse": 1})
+        cases.append({"top": [["gen", 0, 0], ["yld", ["task", ["gen", 0, 2], twice], twice, ["ret", 5]]], "reuse": 1})
+        for order in ([2, 0, 1, 3, 4], [4, 3, 1, 0, 2], [0, 1, 2, 3, 4]):
+            cases.append({"top": [["gen", 0, 0], ["yld", y, ["ret", 1], ["ret", 2]]], "reuse": 1, "share": 1, "order": order})
+        cases.append({"top": [["gen", 0, 0], ["yld", y, ["ret", 1], ["ret", 2]]], "reuse": 1, "warm": 1})
     # BaseException-only errors; every handler is `except Exception`: both engines let the error through to the caller
     for kind in KINDS:
         for afn in (0, 1):
@@ -582,15 +718,31 @@ def fam_chain(f):
     return [["gen", 0, 0], p]
 
 
-FAMILIES = {"wide": fam_wide, "deep": fam_deep, "long": fam_long, "chain": fam_chain}
-SIZE_KEY = {"wide": "n", "deep": "d", "long": "n", "chain": "d"}
+def fam_table(f):
+    """ONE constant object - a list / tuple / dict of n ConstFutures and Nones, optionally one level down - yielded `times`
+    times by the root and once more by a child (usage flag `reuse`: the harness builds it once)"""
+    n, shape, times = f["n"], f.get("shape", "dict"), f.get("times", 2)
+    els = ["none" if i % 9 == 4 else ["const", i] for i in range(n)]
+    y = ["dict"] + [[i, e] for i, e in enumerate(els)] if shape == "dict" else [shape] + els
+    if f.get("nest"):
+        y = ["tup", ["const", 1], y]
+    p = ["yld", ["task", ["gen", 0, 1], ["yld", y, ["ret", 2], ["reraise"]]], ["ret", 1], ["reraise"]]
+    for _ in range(times):
+        p = ["yld", y, p, ["ret", 3]]
+    return [[f.get("kind", "gen"), 0, 0], p]
+
+
+FAMILIES = {"wide": fam_wide, "deep": fam_deep, "long": fam_long, "chain": fam_chain, "table": fam_table}
+SIZE_KEY = {"wide": "n", "deep": "d", "long": "n", "chain": "d", "table": "n"}
+TABLE_SIZES = {"quick": [5, 9, 33, 65, 128, 129, 257, 513], "thorough": [5, 8, 9, 17, 33, 64, 65, 127, 128, 129, 200, 256, 257, 513, 1025]}
 
 
 def expand(case):
-    """(call, program) of a case"""
-    if "top" in case:
-        return case["top"]
-    return FAMILIES[case["fam"]](case)
+    """(call, program) of a case; the root is never declared with sync_fn (fn(args) would BE sync_fn(args))"""
+    c, p = case["top"] if "top" in case else FAMILIES[case["fam"]](case)
+    if call_var(c) % 2:
+        c = mk_call(c[0], c[1], c[2], call_var(c) - 1)
+    return [c, p]
 
 
 def size_family(tier, rng):
@@ -615,6 +767,11 @@ def size_family(tier, rng):
         cases.append({"fam": "chain", "d": d})
         cases.append({"fam": "chain", "d": d, "fail": 1, "catch": 0, "gathered": 1})
         cases.append({"fam": "chain", "d": d, "fail": 1, "catch": rng.choice([2, 3, 5]), "gathered": rng.randrange(2)})
+    for n in TABLE_SIZES[tier]:
+        cases.append({"fam": "table", "n": n, "shape": "dict", "reuse": 1})
+        cases.append({"fam": "table", "n": n, "shape": rng.choice(["lst", "tup"]), "times": 3, "nest": rng.randrange(2), "kind": "meth", "reuse": 1})
+        cases.append({"fam": "table", "n": n, "shape": rng.choice(["dict", "lst", "tup"]), "times": 1, "reuse": 1, "share": 1,
+                      "order": rng.sample(range(len(CONVS)), len(CONVS))})
     for c in cases:
         usage(c, rng)
     return cases
@@ -623,14 +780,30 @@ def size_family(tier, rng):
 def usage(case, rng):
     """how the decorated functions are used by the five ways of running: fresh ones for each / the same ones for all five in
     a random order (no scheduler reset in between); first use / second use (the observed run repeats a dropped one)"""
-    if rng.random() < 0.5:
+    r_share, r_warm = rng.random(), rng.random()
+    order = list(range(len(CONVS)))
+    rng.shuffle(order)
+    if "share" not in case and r_share < 0.5:
         case["share"] = 1
-        order = list(range(len(CONVS)))
-        rng.shuffle(order)
         case["order"] = order
-    if rng.random() < 0.25:
+    if "warm" not in case and r_warm < 0.25:
         case["warm"] = 1
+    # interactions (the model is the same with and without each of them):
+    #   reuse    a yielded structure made of constants only is ONE Python object per harness, however often it is yielded
+    #   onedeco  one decorator object (`d = asynq()`, `d = async_proxy()`) is applied to all functions declared without arguments
+    #   thread   every run happens on a fresh thread (its own event loop, scheduler state and contextvars context); the flag and
+    #            a synchronous call are checked on the main thread afterwards as well
+    #   copyb    bound wrappers (what `obj.method` gives) are used through a copy.copy() of them
+    #   gc       garbage collections: a full one before the first run, the two young generations between the runs, the
+    #            youngest at every resumption of a body
+    for key, prob in USAGE_FLAGS:
+        r = rng.random()
+        if key not in case and r < prob:
+            case[key] = 1
     return case
+
+
+USAGE_FLAGS = (("reuse", 0.5), ("onedeco", 0.3), ("thread", 0.12), ("copyb", 0.15), ("gc", 0.06))
 
 
 def value_family():
@@ -691,6 +864,16 @@ def plan(tier, seed):
 # shrinking / neighbours / signature
 # ---------------------------------------------------------------------------------------------------
 
+def shrink_call(c):
+    """plainer declarations of the same call site"""
+    var = call_var(c)
+    if var:
+        yield c[:3]
+        if var % 2 and var // 2:
+            yield c[:3] + [var - 1]
+            yield c[:3] + [1]
+
+
 def shrink_ys(y):
     if not isinstance(y, list):
         return
@@ -698,6 +881,8 @@ def shrink_ys(y):
     if tag == "task":
         yield ["const", 0]
         c, p = y[1], y[2]
+        for c2 in shrink_call(c):
+            yield ["task", c2, p]
         if c[1]:
             yield ["task", [c[0], 0, c[2]], p]
         if c[0] not in ("gen", "plain"):
@@ -757,6 +942,8 @@ def shrink_prog(p):
     elif op == "sync":
         yield p[3]
         yield p[4]
+        for c2 in shrink_call(p[1]):
+            yield ["sync", c2, p[2], p[3], p[4]]
         for c2 in shrink_prog(p[2]):
             if p[1][0] == "plain" and has_yield(c2):
                 continue
@@ -779,6 +966,9 @@ def prog_size(p):
 
 
 def shrink_usage(case):
+    for key, _ in USAGE_FLAGS:
+        if case.get(key):
+            yield {k: v for k, v in case.items() if k != key}
     if case.get("warm"):
         yield {k: v for k, v in case.items() if k != "warm"}
     if case.get("share"):
@@ -833,6 +1023,8 @@ def shrink(case):
             for x in walk_ys(q[1]):
                 if isinstance(x, list) and x[0] == "task":
                     yield dict(rest, top=[[x[1][0], x[1][1], 0], x[2]])
+    for c2 in shrink_call(c):
+        yield dict(rest, top=[c2, p])
     if c[1]:
         yield dict(rest, top=[[c[0], 0, c[2]], p])
     if c[0] not in ("gen", "plain"):
@@ -850,7 +1042,7 @@ def neighbours(case, rng):
             yield q
         for m in (case[key] + 1, case[key] + 2, 2 * case[key]):
             yield dict(case, **{key: m})
-        for k in ("share", "warm"):
+        for k in ("share", "warm") + tuple(k for k, _ in USAGE_FLAGS):
             yield dict(case, **{k: 0 if case.get(k) else 1})
         return
     rest = {k: v for k, v in case.items() if k != "top"}
@@ -864,6 +1056,12 @@ def neighbours(case, rng):
             yield dict(rest, top=[[kind, afn, 0], p])
     for q in shrink(case):
         yield q
+    for k, _ in USAGE_FLAGS:
+        yield dict(case, **{k: 0 if case.get(k) else 1})
+    # every declaration of the callees of the synchronous calls
+    if has_sync(p):
+        for kind, afn, var in variants():
+            yield dict(rest, top=[c, redeclare_sync(p, kind, afn, var)])
     # fresh programs; never introduce asynq.result() (a known, separate failure) into the neighbourhood of a program
     # that does not use it
     keep_res = has_res(p)
@@ -873,6 +1071,33 @@ def neighbours(case, rng):
         if keep_res or not has_res(q["top"][1]):
             n += 1
             yield q
+
+
+def redeclare_sync(p, kind, afn, var):
+    """the program with the callee of every plain synchronous call declared as (kind, afn, var)"""
+    op = p[0]
+    if op in YLD:
+        return [op, redeclare_ys(p[1], kind, afn, var), redeclare_sync(p[2], kind, afn, var), redeclare_sync(p[3], kind, afn, var)]
+    if op == "sync":
+        c = p[1]
+        if not (kind == "plain" and has_yield(p[2])):
+            c = mk_call(kind, afn, c[2], var)
+        return ["sync", c] + [redeclare_sync(q, kind, afn, var) for q in p[2:]]
+    return p
+
+
+def redeclare_ys(y, kind, afn, var):
+    if not isinstance(y, list):
+        return y
+    if y[0] == "task":
+        return ["task", y[1], redeclare_sync(y[2], kind, afn, var)]
+    if y[0] in SEQ_TAGS:
+        return [y[0]] + [redeclare_ys(x, kind, afn, var) for x in y[1:]]
+    if y[0] in MAP_TAGS:
+        return [y[0]] + [[k, redeclare_ys(x, kind, afn, var)] for k, x in y[1:]]
+    if y[0] == "pval":
+        return ["pval", redeclare_ys(y[1], kind, afn, var)]
+    return y
 
 
 DIVERGENCE_CLAUSES = ("fail:equiv", "fail:deliveries")
@@ -892,6 +1117,10 @@ def signature(case, v):
         if "pval" in tags:
             # AsyncProxyDecorator.asyncio (unwrap_coroutine) awaits whatever the function returned unless it is a ConstFuture
             return "async-proxy-non-future-result-not-resolved"
+    if clause == "fail:sync-refused" and has_dedup_sync(expand(case)[1]):
+        # AsyncDecorator.__call__ builds its RuntimeError message with inspect.getsourcefile(self.fn); self.fn of a
+        # DeduplicateDecorator is a decorator object: TypeError instead of the RuntimeError
+        return "sync-call-of-deduplicated-function-raises-TypeError-in-asyncio-mode"
     if clause == "fail:result-escapes" and has_res(expand(case)[1]):
         # AsyncTaskResult leaves .asyncio() as an exception (repaired in /repo; the signature of the former finding is kept)
         return "asynq.result()-escapes-asyncio"
@@ -1059,11 +1288,14 @@ class IllFormed(Exception):
 class Harness(object):
     """one fresh set of decorated functions, error instances and log per way of running"""
 
-    def __init__(self):
+    _serial = [0]
+
+    def __init__(self, opts=None):
         import asyncio
 
         import asynq
 
+        opts = opts or {}
         self.asynq = asynq
         self.asyncio = asyncio
         self.mode = asynq.is_asyncio_mode
@@ -1074,92 +1306,171 @@ class Harness(object):
         self.berr = {}
         self.err_tok = {}
         self.track = False        # set by run(): the program raises BaseException-only errors
+        self.reuse = bool(opts.get("reuse"))
+        self.onedeco = bool(opts.get("onedeco"))
+        self.copyb = bool(opts.get("copyb"))
+        self.gc = bool(opts.get("gc"))
+        self.consts = {}          # reuse: the ONE object of every constant structure
+        import types
+        self.async_call_is_python = isinstance(getattr(asynq.async_call, "fn", None), types.FunctionType)
+        Harness._serial[0] += 1
+        self.serial = Harness._serial[0]
+        # onedeco: ONE decorator object applied to every function that is declared without arguments
+        self.deco0 = asynq.asynq() if self.onedeco else None
+        pdeco0 = asynq.async_proxy() if self.onedeco else None
         H = self
 
-        @asynq.asynq()
-        def gen_fn(label, body):
-            return (yield from H.block(label, body, True))
+        def adeco(**kw):
+            return H.deco0 if (H.deco0 is not None and not kw) else asynq.asynq(**kw)
 
-        async def g_gen(label, body):
-            H.emit(["afn", label])
-            await asyncio.sleep(0)
-            return await gen_fn.asyncio(label, body)
+        def pdeco(**kw):
+            return pdeco0 if (pdeco0 is not None and not kw) else asynq.async_proxy(**kw)
 
-        @asynq.asynq(asyncio_fn=g_gen)
-        def gen_fn_afn(label, body):
-            return (yield from H.block(label, body, True))
+        self.adeco = adeco
 
         @asynq.asynq(pure=True)
         def pure_fn(label, body):
             return (yield from H.block(label, body, True))
 
-        @asynq.asynq()
-        def plain_fn(label, body):
-            return H.straight(label, body)
-
-        async def g_plain(label, body):
-            H.emit(["afn", label])
-            await asyncio.sleep(0)
-            return await plain_fn.asyncio(label, body)
-
-        @asynq.asynq(asyncio_fn=g_plain)
-        def plain_fn_afn(label, body):
-            return H.straight(label, body)
-
-        @asynq.async_proxy()
+        @pdeco()
         def proxy_fn(label, body):
-            return gen_fn.asynq(label, body)
+            return H.fn_for("gen", 0, 0).asynq(label, body)
 
         async def g_proxy(label, body):
             H.emit(["afn", label])
-            return await gen_fn.asyncio(label, body)
+            return await H.fn_for("gen", 0, 0).asyncio(label, body)
 
-        @asynq.async_proxy(asyncio_fn=g_proxy)
+        @pdeco(asyncio_fn=g_proxy)
         def proxy_fn_afn(label, body):
-            return gen_fn.asynq(label, body)
+            return H.fn_for("gen", 0, 0).asynq(label, body)
 
-        @asynq.async_proxy()
+        @pdeco()
         def pconst_fn(v):
             return asynq.ConstFuture(v)
 
-        @asynq.async_proxy()
+        @pdeco()
         def pval_fn(thunk):
             # an async_proxy function that returns None or a tuple / list / dict (of futures) instead of one future
             return thunk()
 
         class K(object):
-            @asynq.asynq()
-            def meth(self, label, body):
-                H.check_self(self, label)
-                return (yield from H.block(label, body, True))
+            pass
 
-            async def g_meth(slf, label, body):
-                H.check_self(slf, label)
-                H.emit(["afn", label])
-                await asyncio.sleep(0)
-                return await slf.meth.asyncio(label, body)
-
-            @asynq.asynq(asyncio_fn=g_meth)
-            def meth_afn(self, label, body):
-                H.check_self(self, label)
-                return (yield from H.block(label, body, True))
-
-        @asynq.asynq()
+        @adeco()
         def canary():
             return Node(0, ())
 
+        self.K = K
         self.inst = K()
-        self.unbound = {0: K.meth, 1: K.meth_afn}
         self.canary = canary
         self.pconst_fn = pconst_fn
         self.pval_fn = pval_fn
         self.pure_fn = pure_fn
-        self.fns = {
-            ("gen", 0): gen_fn, ("gen", 1): gen_fn_afn,
-            ("meth", 0): self.inst.meth, ("meth", 1): self.inst.meth_afn,
-            ("proxy", 0): proxy_fn, ("proxy", 1): proxy_fn_afn,
-            ("plain", 0): plain_fn, ("plain", 1): plain_fn_afn,
-        }
+        self.fns = {("proxy", 0, 0): proxy_fn, ("proxy", 1, 0): proxy_fn_afn}
+
+    # ------------------------------------------------------------------ declarations (built when first used)
+    def fn_for(self, kind, afn, var):
+        """the function of kind gen / plain / dedup / proxy declared with (afn, var)"""
+        f = self.fns.get((kind, afn, var))
+        if f is not None:
+            return f
+        asynq, asyncio, H = self.asynq, self.asyncio, self
+        sfn = var % 2
+        if kind not in ("gen", "plain", "dedup") or not valid_call([kind, afn, 0, var]):
+            raise IllFormed("no such declaration %r" % ((kind, afn, var),))
+        if kind != "plain":
+            def impl(label, body):
+                return (yield from H.block(label, body, True))
+        else:
+            def impl(label, body):
+                return H.straight(label, body)
+        if kind == "dedup":
+            # @deduplicate() over @asynq(): DeduplicateDecorator has its own asynq() / asyncio() (asynq/tools.py); the key is the
+            # label (programs are trees: no two live tasks share it)
+            import asynq.tools
+            serial = self.serial
+            f = asynq.tools.deduplicate(keygetter=lambda args, kwargs: (serial, args[0]))(self.adeco()(impl))
+        else:
+            kw = {}
+            if afn or sfn:
+                base = self.fn_for(kind, 0, 0)       # the same function declared without asyncio_fn / sync_fn
+            if afn:
+                async def g(label, body):
+                    H.emit(["afn", label])
+                    await asyncio.sleep(0)
+                    return await base.asyncio(label, body)
+                kw["asyncio_fn"] = g
+            if sfn:
+                def s(label, body):
+                    H.emit(["sfn", label])
+                    return base(label, body)
+                kw["sync_fn"] = s
+            f = self.adeco(**kw)(impl)
+        self.fns[(kind, afn, var)] = f
+        return f
+
+    def meth_for(self, afn, var):
+        """name of the method of K declared with (afn, var); bind = var // 2: 0 method, 1 classmethod, 2 staticmethod"""
+        name = "m_%d_%d" % (afn, var)
+        if name in self.K.__dict__:
+            return name
+        asyncio, H = self.asyncio, self
+        sfn, bind = var % 2, var // 2
+        if not valid_call(["meth", afn, 0, var]):
+            raise IllFormed("no such declaration %r" % (("meth", afn, var),))
+        base = self.meth_for(0, 2 * bind) if (afn or sfn) else None
+        kw = {}
+        if bind == 0:
+            def impl(self, label, body):
+                H.check_recv(self, 0, label)
+                return (yield from H.block(label, body, True))
+
+            async def g(slf, label, body):
+                H.check_recv(slf, 0, label)
+                H.emit(["afn", label])
+                await asyncio.sleep(0)
+                return await getattr(slf, base).asyncio(label, body)
+
+            def s(slf, label, body):
+                H.check_recv(slf, 0, label)
+                H.emit(["sfn", label])
+                return getattr(slf, base)(label, body)
+            wrapped, sync_fn = impl, s
+        elif bind == 1:
+            def impl(cls, label, body):
+                H.check_recv(cls, 1, label)
+                return (yield from H.block(label, body, True))
+
+            async def g(cls, label, body):
+                H.check_recv(cls, 1, label)
+                H.emit(["afn", label])
+                await asyncio.sleep(0)
+                return await getattr(cls, base).asyncio(label, body)
+
+            def s(cls, label, body):
+                H.check_recv(cls, 1, label)
+                H.emit(["sfn", label])
+                return getattr(cls, base)(label, body)
+            wrapped, sync_fn = classmethod(impl), classmethod(s)
+        else:
+            def impl(label, body):
+                return (yield from H.block(label, body, True))
+
+            async def g(label, body):
+                H.emit(["afn", label])
+                await asyncio.sleep(0)
+                return await getattr(H.K, base).asyncio(label, body)
+
+            def s(label, body):
+                H.emit(["sfn", label])
+                return getattr(H.K, base)(label, body)
+            wrapped, sync_fn = staticmethod(impl), staticmethod(s)
+        if afn:
+            kw["asyncio_fn"] = g
+        if sfn:
+            kw["sync_fn"] = sync_fn
+        setattr(self.K, name, self.adeco(**kw)(wrapped))
+        return name
 
     # ------------------------------------------------------------------ tokens
     def get_err(self, n):
@@ -1218,27 +1529,45 @@ class Harness(object):
         self.emit(["fin", label, out])
         self.finished.add(label)
 
-    def check_self(self, obj, label):
-        if obj is not self.inst:
+    def check_recv(self, obj, bind, label):
+        if obj is not (self.K if bind == 1 else self.inst):
             self.emit(["bad", "receiver", label])
 
     # ------------------------------------------------------------------ calls
     # The label of a call site also selects HOW the public API is used there (the model is the same for all of them):
     #   label % 2 == 1      the body is passed as a keyword argument
-    #   label % 4 >= 2      a method is reached through the class (K.meth.asynq(inst, ...)) instead of the instance
+    #   label % 4 >= 2      a method is reached through the class (K.meth.asynq(inst, ...)) instead of the instance,
+    #                       a classmethod / staticmethod through the instance instead of the class
     #   label % 5 == 3      child.asynq(...) / child.asyncio(...) go through asynq.async_call (an
-    #                       @async_proxy(asyncio_fn=asyncio_call) of the library); plain synchronous calls do not
+    #                       @async_proxy(asyncio_fn=asyncio_call) of the library); a plain synchronous call too (async_call(child,
+    #                       args)) unless the callee is declared with sync_fn (async_call would use its .asynq()) or @deduplicate(),
+    #                       and only on the pure-Python build
     def target(self, c, p):
-        kind, afn, label = c
+        kind, afn, label = c[:3]
+        var = call_var(c)
+        args = ()
         if kind == "pure":
+            if var:
+                raise IllFormed("no such declaration %r" % (c,))
             fn = self.pure_fn
-            args = ()
-        elif kind == "meth" and label % 4 >= 2:
-            fn = self.unbound[afn]
-            args = (self.inst,)
+        elif kind == "meth":
+            name = self.meth_for(afn, var)
+            other = label % 4 >= 2
+            if var // 2 == 0:
+                fn = getattr(self.K if other else self.inst, name)
+                if other:
+                    args = (self.inst,)
+            else:
+                fn = getattr(self.inst if other else self.K, name)
+            if self.copyb and var // 2 != 2:
+                # the bound wrapper (a DecoratorBinder) is used through a shallow copy of it
+                import copy
+                try:
+                    fn = copy.copy(fn)
+                except (TypeError, copy.Error):
+                    pass          # a build whose binder type cannot be copied: the wrapper itself is used
         else:
-            fn = self.fns[(kind, afn)]
-            args = ()
+            fn = self.fn_for(kind, afn, var)
         if label % 2 == 1:
             return fn, args + (label,), {"body": p}
         return fn, args + (label, p), {}
@@ -1277,6 +1606,11 @@ class Harness(object):
         fn, args, kwargs = self.target(c, p)
         if c[0] == "pure":
             return fn(*args, **kwargs).value()
+        if c[2] % 5 == 3 and c[0] != "dedup" and not call_var(c) % 2 and self.async_call_is_python:
+            # the plain synchronous call of asynq.async_call (an @async_proxy function of the library): async_call(fn, args).
+            # Not on a compiled build: there the refusal of async_call itself raises the TypeError of inspect.getsourcefile(a
+            # Cython function) - the defect the model renders for @deduplicate() functions (`refusal`); the model knows no builds
+            return self.asynq.async_call(fn, *args, **kwargs)
         return fn(*args, **kwargs)
 
     def acall(self, c, p):
@@ -1295,6 +1629,16 @@ class Harness(object):
             return None
         if y == "junk":
             return 12345
+        tag = y[0]
+        if self.reuse and (tag == "const" or tag in CONTAINER_TAGS) and const_only(y):
+            # ONE object per constant structure and harness: yielded again by the same body, by other tasks, by the other runs
+            key = json.dumps(y)
+            if key not in self.consts:
+                self.consts[key] = self.build_new(y, labels, cond, in_cond)
+            return self.consts[key]
+        return self.build_new(y, labels, cond, in_cond)
+
+    def build_new(self, y, labels, cond, in_cond):
         tag = y[0]
         if tag == "const":
             return self.asynq.ConstFuture(y[1])
@@ -1382,6 +1726,9 @@ class Harness(object):
                     env.append(v)
                     body = body[2]
                 i += 1
+                if self.gc:
+                    import gc
+                    gc.collect(0)
                 dc = all(l in self.finished for l in labels) and all(l in self.finished for l in cond if l in self.started)
                 self.emit(["run", label, i, dc, bool(self.mode()), recv])
             elif op == "sync":
@@ -1447,14 +1794,45 @@ class Harness(object):
         self.finished = set()
         self.started = set()
 
-    def run(self, conv, c, p, warm=False):
+    def run(self, conv, c, p, warm=False, thread=False):
+        """thread: the run happens on a fresh thread; the flag and a synchronous call are checked on this one afterwards"""
+        if self.gc:
+            import gc
+            gc.collect(1)
+        if not thread:
+            ob = self.run_here(conv, c, p, warm)
+        else:
+            import threading
+            box = {}
+
+            def target():
+                try:
+                    box["ob"] = self.run_here(conv, c, p, warm)
+                except BaseException as e:  # noqa: handed to the caller
+                    box["exc"] = e
+            t = threading.Thread(target=target, daemon=True)
+            t.start()
+            t.join()
+            if "exc" in box:
+                raise box["exc"]
+            ob = box["ob"]
+        if self.gc:
+            import gc
+            gc.collect(1)
+        if thread:
+            ob[4] = ob[4] or bool(self.mode())
+            if ob[5] == ["ok", ["node", 0]]:
+                ob[5] = self.outcome(self.canary)
+        return ob
+
+    def run_here(self, conv, c, p, warm=False):
         """warm: the same computation has been run once before - by the same functions, and for `aio` on the same event
         loop - and its observations dropped: what is observed is the SECOND use"""
         asyncio = self.asyncio
         mode = self.mode
         self.track = any(q[0] == "raiseB" for q in walk_progs(p))
         if warm and conv in ("call", "value", "aiorun"):
-            self.run(conv, c, p)
+            self.run_here(conv, c, p)
             self.fresh_log()
         if conv == "call":
             before = bool(mode())
@@ -1524,22 +1902,26 @@ def run_case(case):
     obs = {}
     share = bool(case.get("share"))
     warm = bool(case.get("warm"))
+    thread = bool(case.get("thread"))
     order = case.get("order") or list(range(len(CONVS)))
     if sorted(order) != list(range(len(CONVS))):
         raise IllFormed("bad order %r" % (order,))
     H = None
     with warnings.catch_warnings():
         warnings.simplefilter("ignore")
+        if case.get("gc"):
+            import gc
+            gc.collect()
         for idx in order:
             conv = CONVS[idx]
             if H is None or not share:
                 # a fresh set of decorated functions and a clean scheduler for every way of running ...
                 asynq.scheduler.reset()
-                H = Harness()
+                H = Harness(case)
             else:
                 # ... or ONE set of functions, error instances and one thread state used by all five, in the given order
                 H.fresh_log()
-            ob = H.run(conv, c, p, warm)
+            ob = H.run(conv, c, p, warm, thread)
             obs[conv] = ob
             outs[conv] = ob[3]
             logs[conv] = ob[6]
@@ -1557,6 +1939,10 @@ def run_case(case):
                 if isinstance(x, list):
                     if x[0] == "task":
                         kinds.add("child=%s%s" % (x[1][0], "+afn" if x[1][1] else ""))
+                        if call_var(x[1]) % 2:
+                            kinds.add("child-declared-with-sync_fn")
+                        if call_var(x[1]) // 2:
+                            kinds.add("child=" + BIND_NAMES[call_var(x[1]) // 2])
                     elif x[0] in CONTAINER_TAGS:
                         shapes.add("yield=%s%s" % (x[0], "-empty" if len(x) == 1 else ""))
                     elif x[0] == "pval":
@@ -1571,6 +1957,10 @@ def run_case(case):
                 shapes.add("handler-catches-BaseException")
         elif q[0] == "sync":
             kinds.add("sync=" + q[1][0])
+            if call_var(q[1]) % 2:
+                kinds.add("sync-callee-declared-with-sync_fn")
+            if call_var(q[1]) // 2:
+                kinds.add("sync-callee=" + BIND_NAMES[call_var(q[1]) // 2])
         elif q[0] == "res":
             shapes.add("result()")
         elif q[0] == "raiseB":
@@ -1594,6 +1984,13 @@ def run_case(case):
     feats.append("functions=" + ("shared-by-the-five-runs" if case.get("share") else "fresh-per-run"))
     if case.get("warm"):
         feats.append("second-use-observed")
+    for key, _ in USAGE_FLAGS:
+        if case.get(key):
+            feats.append("usage=" + key)
+    if call_var(c) // 2:
+        feats.append("top=" + BIND_NAMES[call_var(c) // 2])
+    if case.get("reuse") and has_repeated_const(p):
+        feats.append("constant-object-yielded-again")
     feats.append("out-call=" + outs["call"][0])
     feats.append("out-aio=" + outs["aio"][0])
     delivered_failure = any(e[0] == "run" and e[5][0] == "err" for e in logs["aio"])
@@ -1608,6 +2005,18 @@ def run_case(case):
         key = {k: v for k, v in case.items() if k != "id"}
         nontrivial = hashlib.sha1(json.dumps(key, sort_keys=True).encode()).hexdigest()[:16]
     return {"lines": lines, "features": feats, "nontrivial": nontrivial}
+
+
+def has_repeated_const(p):
+    """does some constant container occur at two yields of the program?"""
+    seen = set()
+    for q in walk_progs(p):
+        if q[0] in YLD and isinstance(q[1], list) and q[1][0] in CONTAINER_TAGS and len(q[1]) > 1 and const_only(q[1]):
+            key = json.dumps(q[1])
+            if key in seen:
+                return True
+            seen.add(key)
+    return False
 
 
 def ys_depth(y):
